@@ -29,8 +29,51 @@ inline FaultPlan plan_fault_ovmb(const std::string &orig, const IFile &dec, Rng 
     for (int k = 0; k < nf; ++k) try {
         std::string &img = p.image;
         if (img.empty()) break;
-        int kind = (int)rng.below(13);
+        int kind = (int)rng.below(16);
         switch (kind) {
+        case 15: {   // TOPO chunk with handle_encoding := None and the handle bytes removed (self-consistent sizes)
+            if (img.size() != orig.size()) break;
+            std::vector<size_t> cand;
+            for (size_t i = 0; i < dec.chunks.size(); ++i) if (dec.chunks[i].type == "TOPO" && dec.chunks[i].payload_len > 24) cand.push_back(i);
+            if (cand.empty()) break;
+            const IChunk &c = dec.chunks[cand[rng.below(cand.size())]];
+            if (peek(img, c.payload_off + 13, 1) == 0) break;
+            std::string payload = img.substr(c.payload_off, 24);
+            poke(payload, 15, 1, 0);
+            std::string chunk = img.substr(c.off, 16);
+            poke(chunk, 5, 1, 0); poke(chunk, 8, 8, 24);
+            chunk += payload;
+            img.replace(c.off, 16 + (size_t)c.file_length, chunk);
+            p.what += "handle-encoding-none-with-empty-payload "; st.add("fault_handle_encoding_none_consistent");
+            break;
+        }
+        case 13: case 14: {   // span grown (or shrunk) together with its payload: the chunk is self-consistent, only the totals disagree
+            if (img.size() != orig.size()) break;
+            std::vector<size_t> cand;
+            for (size_t i = 0; i < dec.chunks.size(); ++i) if (dec.chunks[i].type == "VERT" || dec.chunks[i].type == "TOPO" || dec.chunks[i].type == "PROP") cand.push_back(i);
+            if (cand.empty()) break;
+            const IChunk &c = dec.chunks[cand[rng.below(cand.size())]];
+            size_t hdr = c.type == "VERT" ? 16 : c.type == "TOPO" ? 24 : 16;
+            if (c.payload_len <= hdr) break;
+            uint64_t count = peek(img, c.payload_off + 8, 4);
+            if (count == 0) break;
+            size_t body = c.payload_len - hdr;
+            if (c.type == "TOPO" && peek(img, c.payload_off + 13, 1) == 0) break;   // variable valence: keep it simple
+            if (body % count) break;
+            size_t esz = body / count;
+            uint64_t add = 1 + rng.below(4);
+            std::string payload = img.substr(c.payload_off, c.payload_len);
+            for (uint64_t i = 0; i < add; ++i) payload += payload.substr(payload.size() - esz, esz);
+            poke(payload, 8, 4, count + add);
+            size_t padded = (payload.size() + 7) & ~(size_t)7;
+            std::string chunk = img.substr(c.off, 16);
+            poke(chunk, 5, 1, padded - payload.size());
+            poke(chunk, 8, 8, padded);
+            chunk += payload; chunk.append(padded - payload.size(), '\0');
+            img.replace(c.off, 16 + (size_t)c.file_length, chunk);
+            p.what += "grow-" + c.type + "-span-by-" + std::to_string(add) + "-with-payload "; st.add("fault_span_grown_with_payload");
+            break;
+        }
         case 0: { size_t o = rng.below(img.size()); img[o] ^= (char)(1 << rng.below(8)); p.what += "bitflip@" + std::to_string(o) + " "; st.add("fault_bitflip"); break; }
         case 1: { size_t o = rng.below(img.size()); img[o] = (char)rng.below(256); p.what += "byte@" + std::to_string(o) + " "; st.add("fault_byte_replace"); break; }
         case 2: { size_t o = rng.below(img.size() + 1); std::string ins; for (int i = 0, n = 1 + (int)rng.below(16); i < n; ++i) ins.push_back((char)rng.below(256)); img.insert(o, ins); p.what += "insert@" + std::to_string(o) + " "; st.add("fault_insert"); break; }
@@ -147,7 +190,8 @@ void HistRun<Mesh>::fault_load_into(const std::string &image, bool ascii, int va
     const std::vector<std::string> OW = {"C07"};
     Dst dst;
     ReadFaults rf; rf.max_chunk = 1 + (size_t)(variant * 37 % 600);
-    uint64_t budget = 400000 + 6000ull * image.size();
+    // the allocator cap (48 MiB per request) bounds what a declared count can legitimately cost: ~5e7 element initialisations
+    uint64_t budget = 250000000ull + 6000ull * image.size();
     bool tc = variant & 1, bu = variant & 2;
     fprintf(stderr, "OVMSIM-FAULT %s image=%zu bytes %s target=%s tc=%d bu=%d\n", ascii ? "ascii" : "ovmb", image.size(), what.c_str(), KernelOf<Dst>::name(), (int)tc, (int)bu);
     alloc_arm(alloc_fail_at, (size_t)48 << 20);
@@ -162,7 +206,9 @@ void HistRun<Mesh>::fault_load_into(const std::string &image, bool ascii, int va
     if (lo.bad_exception) ctx.fail(OW, std::string(ascii ? "ascii" : "ovmb") + "-bad-exception", what);
     if (lo.threw) {
         st.add("c07_outcome_exception_" + lo.what.substr(0, lo.what.find(':')));
-        if ((lo.what == "bad_alloc" || lo.what == "length_error") && !refused) st.add("probe_c07_bad_alloc_without_cap");
+        // "a standard exception when a declared size cannot be allocated": bad_alloc / length_error; anything else escaping a reader is not a reported failure
+        if (lo.what != "bad_alloc" && lo.what != "length_error") ctx.fail(OW, std::string(ascii ? "ascii" : "ovmb") + "-escaping-exception", what + ": " + lo.what);
+        if (!refused) st.add("probe_c07_bad_alloc_without_cap");
         return;
     }
     if (!lo.ok) { st.add("c07_outcome_rejected"); return; }
@@ -194,7 +240,11 @@ template <class Mesh> void HistRun<Mesh>::op_fault_load(R &r, const Op &q) {
     if (mode == 0) { for (int i = 0, n = (int)rng.below(200); i < n; ++i) fp.image.push_back((char)rng.below(256)); fp.what = "arbitrary bytes"; st.add("fault_arbitrary_bytes"); }
     else if (mode == 1 && !last_image.empty()) { size_t a = rng.below(img.size() + 1), b = rng.below(last_image.size() + 1); fp.image = img.substr(0, a) + last_image.substr(b); fp.what = "splice@" + std::to_string(a); st.add("fault_splice"); }
     else if (ascii) fp = plan_fault_ascii(img, rng, st);
-    else fp = plan_fault_ovmb(img, ovmb_decode(img), rng, st);
+    else {
+        // half of the time the faults hit another legal encoding of the same mesh (several spans per kind, wider ints, offsets, extra chunks)
+        if (rng.chance(0.5)) { IFile d0 = ovmb_decode(img); if (d0.verdict == IFile::VALID) { EncodeChoices ch; img = ovmb_encode(d0, rng, ch); st.add("probe_fault_on_reencoded_image"); } }
+        fp = plan_fault_ovmb(img, ovmb_decode(img), rng, st);
+    }
     last_image = img;
     long alloc_fail = rng.chance(0.15) ? 1 + (long)rng.below(400) : -1;
     if (alloc_fail >= 0) { fp.what += "alloc-fail#" + std::to_string(alloc_fail) + " "; st.add("fault_alloc_fail_planned"); }
@@ -217,11 +267,17 @@ template <class Mesh> void HistRun<Mesh>::op_sweep(R &r, const Op &q) {
     if (save_ovmb(*r.mesh, img, wf0) != IO::WriteResult::Ok) return;
     IFile dec = ovmb_decode(img);
     if (dec.verdict != IFile::VALID) throw Inconclusive{"harness: independent decoder rejects writer output: " + dec.reason};
+    if ((q.a[1] & 1) && ((q.a[0] % 8) == 2 || (q.a[0] % 8) == 3 || (q.a[0] % 8) == 0)) {   // sweep another legal encoding of the same mesh
+        Rng er((uint64_t)q.a[1] * 2654435761u); EncodeChoices ch;
+        std::string re = ovmb_encode(dec, er, ch);
+        IFile d2 = ovmb_decode(re);
+        if (d2.verdict == IFile::VALID) { img = re; dec = d2; st.add("probe_sweep_on_reencoded_image"); }
+    }
     bool complete = plan.c("sweep_complete", 0);
     size_t stride = complete ? 1 : std::max<size_t>(1, img.size() / 48);
     size_t phase = complete ? 0 : (size_t)q.a[2] % stride;
     int kind = q.a[0] % 8;
-    uint64_t budget = 400000 + 6000ull * img.size();
+    uint64_t budget = 250000000ull + 6000ull * img.size();
     auto load = [&](const std::string &image, ReadFaults &rf, PolyMesh &dst) {
         IO::ReadOptions ro; ro.topology_check = q.a[3] & 1; ro.bottom_up_incidences = q.a[3] & 2;
         alloc_arm(-1, (size_t)48 << 20);
